@@ -548,7 +548,7 @@ func runStake(r *Rec, prop string) {
 	}
 
 	// ---------- random episodes restricted to the operations covered by C05.sync_block (hypothesis `Good`)
-	nEp, nBlocks := 6, 25
+	nEp, nBlocks := 40, 30
 	if r.Tier == "thorough" {
 		nEp, nBlocks = 80, 40
 	}
